@@ -139,6 +139,5 @@ theorem admitSegs_sim {σ : Sigma} (conv una cwnd now : U32) (q : List Seg) (hq 
       apply forall₂_single
       constructor <;> (try rfl)
       · intro hh; exact absurd hx hh
-      · intro hh; exact absurd hx hh
 
 end KcpVerif.Shift
